@@ -52,6 +52,21 @@ MUTATIONS = [
      "        self._emit_configuration()\n        self._emit_store_data()\n        self.run_steps()\n"),
     ('c12-emit-ignores-flag', 'C12', S, "        if self.emit:\n            if self.serializer:",
      "        if self.emit or self.leaf:\n            if self.serializer:"),
+    # structural
+    ('s-add-overwrites', 'C09', S, "        if key in inner_keys:\n            raise Exception(", "        if False:\n            raise Exception("),
+    ('s-move-keeps-source', 'C09', S, "        self._delete_path(source_path)\n\n        here = self.path_for()", "        here = self.path_for()"),
+    ('s-flow-list', 'C10', E, "                assoc_path(self.flow, path, flow_update)", "                assoc_path(self.flow, path, flow_updates)"),
+    ('s-steps-not-deleted', 'C10', E, "                del self._step_paths[path]\n", "                pass\n"),
+    ('s-front-kept', 'C10', E, "            if path not in self.process_paths:\n                update = self.front.pop(path)['update']",
+     "            if False:\n                update = self.front.pop(path)['update']"),
+    ('s-new-process-at-zero', 'C10', E, "                    self.front[path] = empty_front(self.global_time)\n                process_time",
+     "                    self.front[path] = empty_front(0)\n                process_time"),
+    ('s-split-both-remainder', 'C11', R, "            return [half, half + remainder]", "            return [half + remainder, half + remainder]"),
+    ('s-daughters-share-processes', 'C11', S, "                processes = copy.deepcopy(mother_processes)\n", "                processes = mother_processes\n"),
+    ('s-initial-before-divided', 'C11', S, "            merged_initial_state = deep_merge(\n                daughter_state, daughter.get('initial_state', {}))",
+     "            merged_initial_state = deep_merge(\n                dict(daughter.get('initial_state', {})), daughter_state)"),
+    ('s-move-no-view-expire', 'C07', S, "                    deletions.extend(move_deletions)\n                    view_expire = True", "                    deletions.extend(move_deletions)"),
+    ('s-steps-no-view-rebuild', 'C07', E, "            if view_expire:\n                self.state.build_topology_views()\n\n    def _send_updates", "            pass\n\n    def _send_updates"),
 ]
 
 QUIET = [
